@@ -81,6 +81,10 @@ def run(pid, cfg, tier, seed, workdir, already_broken):
     maxp = 120 if tier == "quick" else 200
     for sp in _scen_paths(cfg.get("scenarios", [])):
         results += sweep.sweep(sp, os.path.join(workdir, "sweep"), maxp=maxp, two_level=(tier == "thorough"))
+    if cfg.get("freeze"):
+        for sp in _scen_paths(cfg.get("scenarios", []))[:4 if tier == "quick" else 99]:
+            results += sweep.freeze_sweep(sp, os.path.join(workdir, "freeze"),
+                                          maxp=(14 if tier == "quick" else 40), maxq=(30 if tier == "quick" else 70))
     # random programs x schedules
     n = 24 if tier == "quick" else 600
     rs, _ = corr.run_batch(cfg.get("families", []), n, seed, os.path.join(workdir, "rand"))
@@ -109,6 +113,8 @@ def run(pid, cfg, tier, seed, workdir, already_broken):
             if time.time() - t1 > budget:
                 break
             extra += sweep.sweep(sp, os.path.join(workdir, "sweep2"), maxp=60, two_level=True)
+            if cfg.get("freeze"):
+                extra += sweep.freeze_sweep(sp, os.path.join(workdir, "freeze2"), maxp=40, maxq=70)
             mine = [(f, r) for r in extra for f in [(x[0], x[1], r["base"]) for x in r.get("findings", [])] if f[0] == pid]
             if mine:
                 break
